@@ -771,22 +771,40 @@ func hexClasses(kind string, text string, wantLen int) (nontrivial bool, cl []st
 // ---------------------------------------------------------------------------------------
 
 type kinds struct {
-	kInt   *evid.Kind[IntCase]
-	kDoc   *evid.Kind[DocCase]
-	kVal   *evid.Kind[ValCase]
-	kAddr  *evid.Kind[AddrCase]
-	kBytes *evid.Kind[HexCase]
-	kSeq   *evid.Kind[SeqCase]
+	kInt    *evid.Kind[IntCase]
+	kDoc    *evid.Kind[DocCase]
+	kVal    *evid.Kind[ValCase]
+	kAddr   *evid.Kind[AddrCase]
+	kBytes  *evid.Kind[HexCase]
+	kSeq    *evid.Kind[SeqCase]
+	kHexSeq *evid.Kind[HexSeqCase]
+	// the same judges called from several goroutines at once (state shared between calls)
+	pInt    *evid.Pool[IntCase]
+	pDoc    *evid.Pool[DocCase]
+	pVal    *evid.Pool[ValCase]
+	pAddr   *evid.Pool[AddrCase]
+	pBytes  *evid.Pool[HexCase]
+	pSeq    *evid.Pool[SeqCase]
+	pHexSeq *evid.Pool[HexSeqCase]
 }
 
-func register(rec *evid.Recorder) kinds {
+// register declares every kind; pool is the number of cases each concurrent kind collects (0 in TestReplay).
+func register(rec *evid.Recorder, pool int) kinds {
 	return kinds{
-		kInt:   evid.NewKind(rec, "int", judgeInt),
-		kDoc:   evid.NewKind(rec, "doc", judgeDoc),
-		kVal:   evid.NewKind(rec, "val", judgeVal),
-		kAddr:  evid.NewKind(rec, "addr", judgeAddr),
-		kBytes: evid.NewKind(rec, "bytes", judgeBytes),
-		kSeq:   evid.NewKind(rec, "seq", judgeSeq),
+		kInt:    evid.NewKind(rec, "int", judgeInt),
+		kDoc:    evid.NewKind(rec, "doc", judgeDoc),
+		kVal:    evid.NewKind(rec, "val", judgeVal),
+		kAddr:   evid.NewKind(rec, "addr", judgeAddr),
+		kBytes:  evid.NewKind(rec, "bytes", judgeBytes),
+		kSeq:    evid.NewKind(rec, "seq", judgeSeq),
+		kHexSeq: evid.NewKind(rec, "hexseq", judgeHexSeq),
+		pInt:    evid.NewPool(rec, "concurrent-int", judgeInt, pool),
+		pDoc:    evid.NewPool(rec, "concurrent-doc", judgeDoc, pool),
+		pVal:    evid.NewPool(rec, "concurrent-val", judgeVal, pool),
+		pAddr:   evid.NewPool(rec, "concurrent-addr", judgeAddr, pool),
+		pBytes:  evid.NewPool(rec, "concurrent-bytes", judgeBytes, pool/4),
+		pSeq:    evid.NewPool(rec, "concurrent-seq", judgeSeq, pool/4),
+		pHexSeq: evid.NewPool(rec, "concurrent-hexseq", judgeHexSeq, pool/4),
 	}
 }
 
@@ -800,7 +818,7 @@ func TestCheck(t *testing.T) {
 	rec.Assume("not asserted: Go base-0 literal oddities (leading-zero decimals, 0b/0o, '_', leading '+', bare '.', 'p' exponent, hex floats, surrounding white space), " +
 		"acceptance of negative-zero spellings, exponent/fraction spellings of values >= 2^256, acceptance of exponent spellings with more than 60 mantissa digits, an upper-case 0X prefix on addresses/bytes, JSON null")
 	rec.Assume("texts with an exponent of more than 4 digits are not run (cost; outside the quantifier)")
-	k := register(rec)
+	k := register(rec, 1024)
 	rec.Corpus(t)
 
 	// exhaustive: every text of up to 4 (thorough: 5) characters over a 16-letter numeric alphabet
@@ -878,6 +896,9 @@ func TestCheck(t *testing.T) {
 		text, how := genIntText(rt)
 		nt, cl := intClasses(text)
 		k.kInt.Check(rt, IntCase{Text: text}, nt, append(cl, "gen:"+how)...)
+		if nt {
+			k.pInt.Offer(IntCase{Text: text})
+		}
 	})
 
 	// histories: results of earlier parses must survive later parses
@@ -897,12 +918,23 @@ func TestCheck(t *testing.T) {
 			cl = "seq:>=2-float-spellings"
 		}
 		k.kSeq.Check(rt, SeqCase{Texts: texts}, floats >= 2, cl)
+		k.pSeq.Offer(SeqCase{Texts: texts})
+	})
+
+	// histories of byte-string / address parses into the same targets
+	rec.Rapid(t, "hexseq", rec.N(4000, 30000), func(rt *rapid.T) {
+		c, nt, cl := genHexSeq(rt)
+		k.kHexSeq.Check(rt, c, nt, cl...)
+		k.pHexSeq.Offer(c)
 	})
 
 	rec.Rapid(t, "doc", rec.N(15000, 60000), func(rt *rapid.T) {
 		doc, how := genDoc(rt)
 		nt, cl := docClasses(doc)
 		k.kDoc.Check(rt, DocCase{Doc: doc}, nt, append(cl, "doc-gen:"+how)...)
+		if nt {
+			k.pDoc.Offer(DocCase{Doc: doc})
+		}
 	})
 
 	rec.Rapid(t, "val", rec.N(15000, 60000), func(rt *rapid.T) {
@@ -912,24 +944,40 @@ func TestCheck(t *testing.T) {
 			cl = "val:>=2^64"
 		}
 		k.kVal.Check(rt, ValCase{Dec: v.String()}, v.Cmp(two53) >= 0, cl)
+		k.pVal.Offer(ValCase{Dec: v.String()})
 	})
 
 	rec.Rapid(t, "addr", rec.N(25000, 100000), func(rt *rapid.T) {
 		text, how := genAddrText(rt)
 		nt, cl := hexClasses("addr", text, 20)
 		k.kAddr.Check(rt, AddrCase{Text: text}, nt, append(cl, "addr-gen:"+how)...)
+		if b, _, class := numref.ParseHexBytes(text); class == numref.HexValid && len(b) == 20 {
+			k.pAddr.Offer(AddrCase{Text: text}) // only texts that reach the printing side (EIP-55) as well
+		}
 	})
 
 	rec.Rapid(t, "bytes", rec.N(10000, 50000), func(rt *rapid.T) {
 		text, how := genBytesText(rt)
 		nt, cl := hexClasses("bytes", text, -1)
 		k.kBytes.Check(rt, HexCase{Text: text}, nt, append(cl, "bytes-gen:"+how)...)
+		if _, _, class := numref.ParseHexBytes(text); class == numref.HexValid {
+			k.pBytes.Offer(HexCase{Text: text})
+		}
 	})
+
+	// concurrent callers: every batch is judged from 8 goroutines at once, several rounds
+	k.pAddr.Run(t, 8, 4, 256)
+	k.pVal.Run(t, 8, 3, 256)
+	k.pInt.Run(t, 8, 3, 256)
+	k.pDoc.Run(t, 8, 2, 256)
+	k.pBytes.Run(t, 8, 2, 64)
+	k.pSeq.Run(t, 8, 2, 64)
+	k.pHexSeq.Run(t, 8, 2, 64)
 }
 
 func TestReplay(t *testing.T) {
 	rec := evid.Start("C19", rule)
-	register(rec)
+	register(rec, 0)
 	rec.Replay(t)
 }
 
